@@ -88,8 +88,12 @@ class Spec:
                  modifies=(), loops=None, inline=False, locals=None, pure=False, hints=(),
                  trusted=False, fresh=(), cases=None, at=None, ghost=None, ghost_calls=None, reveal=(), bind=None, decreases=None,
                  region=None, let=None, abstract=None, negative_indices=False,
-                 frame_axiom=False, ensures_local=(), denotes=None):
+                 frame_axiom=False, ensures_local=(), denotes=None, assume_stmt=None):
         self.qual = qual
+        # statements NOT executed symbolically but replaced by an ASSUMED effect on one variable (float library arithmetic
+        # outside the encoding): {first source line: (variable, kind, clause over the state after it)}.  Each one is an
+        # unchecked assumption, listed in the evidence; the bounded check is expected to test it.
+        self.assume_stmt = assume_stmt or {}
         self.denotes = denotes          # name of the mathematical function this PURE float function computes (see Registry.add)
         self.params = params            # ordered dict name -> kind text
         self.returns = returns
@@ -1274,6 +1278,19 @@ class Executor:
             self.ctx.assume(st, cl)
 
     def exec_stmt(self, node, st):
+        if self.spec is not None and self.spec.assume_stmt and isinstance(node, ast.Assign):
+            try:
+                key = ast.unparse(node).splitlines()[0].strip()
+            except Exception:
+                key = None
+            if key in self.spec.assume_stmt:
+                var, ktxt, clause = self.spec.assume_stmt[key]
+                v = fresh(self.kind_of(ktxt), "assumed_" + var)
+                self.assign(ast.Name(id=var, ctx=ast.Store()), v, st, node)
+                self.ctx.assume(st, self.eval_spec(clause, st, assumed=True))
+                self.ctx.dropped.append("%s:%d ASSUMED (not executed): `%s` leaves %s with: %s"
+                                        % (self.fi.path, node.lineno, key, var, clause))
+                return Outcomes(normal=st)
         m = getattr(self, "s_" + type(node).__name__, None)
         if m is None:
             self.unsupported(node)
